@@ -1,10 +1,14 @@
-(* Correspondence runner for C12: the harness builds one breaker through the public rule
-   manager (circuitbreaker.BuildResourceCircuitBreaker), spawns the goroutines under the
-   deterministic scheduler and executes a schedule of `Run tid` / `Tick dt` events. Per case it
-   emits: the rule, the creation time, the goroutines' programs, the schedule, and the
-   observations: after every Run the yield label the goroutine parked at (-1 = finished) and the
-   breaker's state word; at the end every goroutine's TryPass results and the complete
-   listener call log (goroutine, transition, snapshot as exact bits), in call order. *)
+(* Correspondence runner for C12: the harness (harness/cmd/vh-c12) loads one circuit-breaking rule
+   for a fresh resource (circuitbreaker.LoadRulesOfResource), spawns the goroutines under the
+   deterministic scheduler and executes a schedule of `Run tid` / `Tick dt` events. A request
+   (`OTry blocked`) is sentinel.Entry on the resource (blocked: a rule-check slot ordered after
+   the breaker slot rejects it, so the entry exits as blocked and the probe's exit hook runs); a
+   completion (`OComplete rt err`) is SentinelEntry.Exit of an entry the goroutine holds (rt =
+   its age) or OnRequestComplete on the breaker object. Per case the harness emits: the rule, the
+   creation time, the goroutines' programs, the schedule, and the observations: after every Run
+   the yield label the goroutine parks at (300 = between two operations, -1 = finished) and the
+   breaker's state word; at the end of the schedule every goroutine's TryPass results and the
+   complete listener call log (goroutine, transition, snapshot as exact bits), in call order. *)
 From Coq Require Import Floats.
 From SG Require Export Base.Prelude Base.GoInt Base.GoFloat Model.Breaker Model.BreakerConc.
 #[local] Open Scope Z_scope.
